@@ -1030,6 +1030,18 @@ def gen_history_cases(seed, count, maxops=40):
             cg.inputs_fn = ctx_inputs
             cg.ctx_k = k
             pool[r.randrange(2)] = cg
+        if r.random() < 0.12:
+            # one rule with a very long right-hand side (an object-stack object that outgrows more than
+            # one segment), next to ordinary rules; what matters is the redefinition that follows it
+            n = r.choice([64, 65, 80, 130, 300])
+            lt = [('a', 1), ('b', 2), ('c', 3)]
+            lg = Grammar(lt, [('S', 'long', 1, ['a'] * n, [0, n - 1]), ('S', 'sb', 1, ['S', 'b'], [0, 1]), ('S', None, 0, ['B'], [0]),
+                              ('B', 'b', 1, ['b', 'c'], [0, 1]), ('B', 'bb', 1, ['c', 'B', 'c'], [1])], True)
+            def long_inputs(r, tn, n=n):
+                x = r.random()
+                return ['a'] * n + ['b'] * r.randint(0, 2) if x < 0.3 else ['a'] * r.randint(0, 5) if x < 0.4 else ['c'] * r.randint(0, 2) + ['b', 'c'] + ['c'] * r.randint(0, 2)
+            lg.inputs_fn = long_inputs
+            pool[r.randrange(2)] = lg
         pool += [bad_variant(r, pool[0]), gen_def_grammar(r)]
         lines = ['case H-%d-%d history' % (seed, i)]
         for gid, g in enumerate(pool): lines += g.text(gid)
@@ -1048,7 +1060,7 @@ def gen_history_cases(seed, count, maxops=40):
         inputs = {}
         for gid in (0, 1):
             inputs[gid] = gen_inputs(r, pool[gid], 4, 6) if getattr(pool[gid], 'inputs_fn', None) is None else \
-                          [pool[gid].inputs_fn(r, [n_ for n_, _ in pool[gid].terms])[:90] for _ in range(6)]
+                          [pool[gid].inputs_fn(r, [n_ for n_, _ in pool[gid].terms])[:330] for _ in range(6)]
         def set_burst(h, k):
             for key in r.sample(['la', 'one', 'cost', 'rec', 'match', 'debug'], k):
                 v = {'la': r.choice([-2, 0, 1, 2, 5]), 'one': r.choice([0, 1, 1, 7]), 'cost': r.choice([0, 0, 1]), 'rec': r.choice([0, 1]),
